@@ -3,6 +3,7 @@ import Dnp3.Driver.Transport
 import Dnp3.Driver.Outstation
 import Dnp3.Driver.Convert
 import Dnp3.Driver.Parse
+import Dnp3.Driver.Ffi
 open Dnp3 Dnp3.Driver
 
 partial def loop {σ : Type} (h : IO.FS.Stream) (out : IO.FS.Stream) (step : σ → String → σ × List String) (s : σ) : IO Unit := do
@@ -26,4 +27,5 @@ def main (args : List String) : IO UInt32 := do
   | ["outstation"] => loop stdin stdout outstationStep {}; return 0
   | ["convert"] => loop stdin stdout convertStep (CState.init 100 2048 false); return 0
   | ["parse"] => loop stdin stdout parseStep (); return 0
+  | ["ffi"] => loop stdin stdout ffiStep (); return 0
   | _ => IO.eprintln "usage: dnp3model <engine>"; return 2
